@@ -7,7 +7,8 @@
    All theorems are for ALL n >= 0 and ALL k (not only k <= 4). *)
 From Coq Require Import ZArith List Sorting.Sorted Sorting.Permutation.
 From Batchie Require Import Lib.Sexp Model.Unrank Model.Binom
-  Proofs.C15Binom Proofs.C15Unrank Proofs.C15Enum Proofs.C15Src Generated.SrcArith.
+  Proofs.C15Binom Proofs.C15Unrank Proofs.C15Enum Proofs.C15Src Generated.SrcArith
+  Generated.SrcUnrank Proofs.C15Source.
 Import ListNotations.
 Open Scope Z_scope.
 
@@ -32,6 +33,51 @@ Theorem C15_model_is_source_loops :
        Ok (n :: rest)).
 Proof. exact (conj init_nck_is_source (conj unrank_inner_is_source unrank_outer_is_source)). Qed.
 Print Assumptions C15_model_is_source_loops.
+
+(* WHOLE-FUNCTION source link.  Generated/SrcUnrank.v holds the Gallina translation (harness/py2gal.py, regenerated from
+   /repo on every run) of the generator generate_combination_at_sorted_index as ONE function - the product loop over
+   zip(range(n, n-k, -1), range(1, k+1)), the loop `for k in range(k, 0, -1)` whose variable shadows the parameter, the
+   `while current_index - n_ck > index` loop as recursion on the explicit parameter [fuel] (Err 97 if it ran out, which is
+   not a Python behaviour), every // and % CHECKED (ZeroDivisionError = Err 8), `yield n` = append to the result list -
+   and of its wrapper get_combination_at_sorted_index.  The integer parameter k is mapped to the model's nat by Z.to_nat
+   (k <= 0: nothing is yielded, in both).
+   For EVERY integer index, n, k: wherever the model's own loop fuel suffices (unrank <> Err 9) the translation on any
+   fuel above n + 1 equals the model ... *)
+Theorem C15_model_is_source_generate_combination_at_sorted_index_any_n : forall fuel index n k,
+  unrank index n (Z.to_nat k) <> Err 9 -> (S (Z.to_nat n) < fuel)%nat ->
+  src_generate_combination_at_sorted_index index n k fuel = unrank index n (Z.to_nat k).
+Proof. exact src_generate_is_unrank_when_model_has_fuel. Qed.
+Print Assumptions C15_model_is_source_generate_combination_at_sorted_index_any_n.
+
+(* ... and for n >= 0 (the property's domain: n is a count at every call site) C15_fuel_never_exhausted discharges that
+   hypothesis: for EVERY index (in range or not) and every k the translated generator is the model *)
+Theorem C15_model_is_source_generate_combination_at_sorted_index : forall fuel index n k,
+  0 <= n -> (S (Z.to_nat n) < fuel)%nat ->
+  src_generate_combination_at_sorted_index index n k fuel = unrank index n (Z.to_nat k).
+Proof. exact src_generate_is_unrank. Qed.
+Print Assumptions C15_model_is_source_generate_combination_at_sorted_index.
+
+(* the wrapper: tuple(generate_combination_at_sorted_index(index, n, k)), calling the translated generator *)
+Theorem C15_model_is_source_get_combination_at_sorted_index : forall fuel index n k,
+  0 <= n -> (S (Z.to_nat n) < fuel)%nat ->
+  src_get_combination_at_sorted_index index n k fuel = unrank index n (Z.to_nat k).
+Proof. exact src_get_is_unrank. Qed.
+Print Assumptions C15_model_is_source_get_combination_at_sorted_index.
+
+(* no fuel hypothesis left: at the explicit fuel n + 2 the translated function IS the function all theorems below are about *)
+Theorem C15_model_is_source_get_combination_at_sorted_index_no_fuel_hypothesis : forall index n (k : nat),
+  0 <= n -> src_get_combination_at_sorted_index index n (Z.of_nat k) (S (S (Z.to_nat n))) = unrank index n k.
+Proof. exact src_get_is_unrank_at_fuel. Qed.
+Print Assumptions C15_model_is_source_get_combination_at_sorted_index_no_fuel_hypothesis.
+
+(* clauses (a)-(c) read on the translated source: on any fuel above n + 1 and every 0 <= index < C(n,k) it returns, without
+   error, a strictly descending k-tuple within [0,n) whose rank is the index *)
+Theorem C15_source_unrank_ok_descending_rank : forall fuel n (k : nat) index,
+  0 <= n -> 0 <= index < Cz n k -> (S (Z.to_nat n) < fuel)%nat ->
+  exists c, src_get_combination_at_sorted_index index n (Z.of_nat k) fuel = Ok c /\
+    length c = k /\ desc_below n c /\ rank c = index.
+Proof. exact src_get_ok_descending_rank. Qed.
+Print Assumptions C15_source_unrank_ok_descending_rank.
 
 (* the binomial the statements use is the usual one *)
 Theorem C15_binomial_is_factorial_quotient : forall n k, (k <= n)%nat ->
@@ -155,6 +201,12 @@ Example C15_production_size_example : unrank 20708500000 5000 3 = Ok [4990; 4973
 Proof. vm_compute. reflexivity. Qed.
 (* outside the hypotheses: an index >= C(n,k) repeats the last tuple, a negative one divides by zero *)
 Example C15_out_of_range_example : unrank 10 5 2 = Ok [4; 3] /\ unrank (-1) 5 2 = Err 8 /\ unrank 0 2 3 = Err 8.
+Proof. vm_compute. repeat split. Qed.
+(* the translated source computes (and raises) like the implementation: the source link is not vacuous *)
+Example C15_source_example :
+  src_get_combination_at_sorted_index 500 14 4 16 = Ok [12; 4; 2; 0] /\
+  src_get_combination_at_sorted_index (-1) 5 2 7 = Err 8 /\ src_get_combination_at_sorted_index 3 5 (-2) 7 = Ok [] /\
+  src_get_combination_at_sorted_index 0 5 2 1 = Err 97.
 Proof. vm_compute. repeat split. Qed.
 (* the choice contract is satisfiable (first m indices), and with it the use site yields all triples *)
 Example C15_choice_contract_example : choice_contract (fun _ m => map Z.of_nat (seq 0 (Z.to_nat m))).
